@@ -116,6 +116,23 @@ class World:
             t = cm + 1000
         return t
 
+    def switch_library(self, vals):
+        """The caller starts using ANOTHER library folder: a newer copy of the library (every file written later than
+        the cache, one of them with other content).  Returns False when the model has no library."""
+        if not self.ent["lib"]:
+            return False
+        self.lib_gen = getattr(self, "lib_gen", 0) + 1
+        new = os.path.join(self.sandbox, "lib_v%d" % (self.lib_gen + 1))
+        os.makedirs(os.path.join(new, "sub"), exist_ok=True)
+        self.ldir = new
+        first = True
+        for key in sorted(k for k in self.files if k.startswith("lib:")):
+            if first:
+                self.files[key] = (vals, self.files[key][1])
+                first = False
+            self.write(key, self.edit_time_us())
+        return True
+
     def lib_folders(self):
         return [self.ldir] + ([self.ldir2] if self.ent.get("lib2") else [])
 
@@ -347,12 +364,16 @@ class Engine:
 
     def gen_history(self, rng, codegen=False):
         name = rng.choice(MODELS if not codegen else ["Tank", "Ali", "Str", "UsesLib"])
+        if not codegen and rng.random() < 0.25:
+            name = rng.choice(["UsesLib", "TwoLibs"])  # the models with library folders
         ent = cp.POOL[name]
         keys = ["model:" + f for f in ent["model"]] + ["lib:" + f for f in ent["lib"]] + ["lib2:" + f for f in ent.get("lib2", {})]
         kinds = {"transfer": 6, "edit": 4}
         for k, w in (("options", 1.5), ("version", 1), ("restart", 1.5), ("clock", 1.5)):
             if rng.random() < 0.7:
                 kinds[k] = w
+        if ent["lib"] and not codegen and rng.random() < 0.6:
+            kinds["switch_lib"] = 1.5
         if ent.get("late"):
             kinds["add"] = 2
         names = list(kinds)
@@ -373,10 +394,14 @@ class Engine:
                 ops.append({"op": "version", "label": rng.randrange(len(LABELS))})
             elif k == "restart":
                 ops.append({"op": "restart"})
+            elif k == "switch_lib":
+                ops.append({"op": "switch_lib", "vals": _vals(rng)})
             else:
                 ops.append({"op": "clock", "delta_s": rng.choice(CLOCK_DELTAS)})
         ops.append({"op": "transfer"})
         optset0 = rng.randrange(len(cp.OPTION_SETS)) if rng.random() < 0.5 else 0
+        if name == "Iter" and rng.random() < 0.6:
+            optset0 = rng.choice([8, 9])
         if rng.random() < 0.3:
             ops = self._revisit_motif(rng, keys, optset0)
         for o in ops:
@@ -427,6 +452,8 @@ class Engine:
                 ops.append({"op": "restart"})
 
         other = rng.choice([i for i in range(len(cp.OPTION_SETS)) if i != optset0])
+        if optset0 in (8, 9) and rng.random() < 0.6:
+            other = 17 - optset0  # differs only in an option the API honours without declaring it
         vals0 = _vals(rng)
         key = rng.choice(keys)
         if what == "content":
@@ -603,6 +630,10 @@ class Engine:
                     if op["set"] != optset:
                         optset = op["set"]
                         pending.add("options")
+                elif k == "switch_lib":
+                    if world.switch_library(op["vals"]):
+                        pending.add("lib_folder")
+                        bump("probe:library_folder_switched")
                 elif k == "version":
                     if op["label"] != label_i:
                         label_i = op["label"]
